@@ -78,6 +78,15 @@ func runC10(cfg *Config) *Report {
 			}
 		}
 		comb := pick(r, []string{"DisjPlus", "DisjPlusZzz", "DisjPlusNoOrder", "ConjPlus", "ConjPlusZzz"})
+		if n >= 2 && strings.HasPrefix(comb, "Conj") && r.Intn(2) == 0 {
+			// a first conjunct with several answers: its stream has lazily computed tails, which every later use must
+			// force from one goroutine at a time
+			k := r.Intn(n)
+			args[k] = gDisj(gEq(ptB(0), ptAtom(pick(r, progAtoms))), gDisj(gEq(ptB(0), ptAtom(pick(r, progAtoms))), gEq(ptB(0), ptAtom(pick(r, progAtoms)))))
+			if r.Intn(2) == 0 {
+				args[0], args[k] = args[k], args[0]
+			}
+		}
 		procs := pick(r, []int{1, 2, 4, 16})
 		budget := 30 + r.Intn(20)
 		if cfg.Only >= 0 && cfg.Only != i {
@@ -123,6 +132,22 @@ func runC10(cfg *Config) *Report {
 			runs = append(runs, observeTrace(conc(mk(rep3 > 0)...)(st0), budget))
 		}
 		obs := traceStr(runs[0])
+		// ownership: no stream cell of an argument goal is forced by two goroutines at the same time (data race on its memo)
+		probe := &forceProbe{slow: 6, pause: 400 * time.Microsecond}
+		pgs := plain()
+		for k := range pgs {
+			pgs[k] = probe.goal(pgs[k])
+		}
+		ptr := observeTrace(conc(pgs...)(st0), budget)
+		if probe.forced.Load() > 0 {
+			rep.hist("probed run forced >= 1 lazy tail of an argument's stream")
+		}
+		if n := probe.overlaps.Load(); n > 0 {
+			rep.violate(i, "data-race-stream-cell-forced-by-two-goroutines", desc, fmt.Sprintf("%d time(s) a goroutine entered the tail thunk of a stream cell of an argument goal while another goroutine was inside it: the cell's memo (StreamOfStates.mem) is read and written without synchronisation", n))
+		}
+		if comb != "DisjPlusNoOrder" && comb != "ConjPlus" && traceStr(ptr) != traceStr(seqTr) {
+			rep.violate(i, "differs-from-sequential", desc, fmt.Sprintf("probed run: %s ; sequential: %s", traceStr(ptr), traceStr(seqTr)))
+		}
 		exact := comb == "DisjPlus" || comb == "DisjPlusZzz" || comb == "ConjPlusZzz"
 		if exact {
 			// the same stream as the sequential combinator, hence the same cell trace, on every run
